@@ -116,8 +116,8 @@ pub fn run_marathons(p: &Params, prop: &'static str) -> Outcome {
                 maxlen: if i % 4 == 0 { 80 } else { 12 },
                 vmax: 14,
                 // (one in four: more than 2^16 diffs through one adapter object)
-                min_ops: if i % 4 == 2 { 140_000 } else { 20_000 },
-                max_ops: if i % 4 == 2 { 220_000 } else { 35_000 },
+                min_ops: if i % 2 == 0 { 140_000 } else { 20_000 },
+                max_ops: if i % 2 == 0 { 220_000 } else { 35_000 },
                 txn_pct: 15,
                 param_pct: 10,
                 poll_pct: 35,
@@ -128,16 +128,21 @@ pub fn run_marathons(p: &Params, prop: &'static str) -> Outcome {
                 lazy_only: false,
                 far_runs: false,
             };
-            let long = i % 4 == 2;
+            let long = i % 2 == 0;
             let (chain, batched): (Vec<Stage>, bool) = if long {
                 // more than 2^16 diffs through ONE adapter object of a known kind (plain stream first)
                 use crate::engine_adp::{Kind, PK};
-                let k = (i / 4) % 5;
-                let st = match k {
-                    0 => Stage::Lim { kind: Kind::Tail, pk: PK::Static, n: 3, queue: false },
-                    1 => Stage::Lim { kind: Kind::Skip, pk: PK::DynInit, n: 2, queue: true },
-                    2 => Stage::Lim { kind: Kind::Head, pk: PK::Static, n: 3, queue: false },
-                    3 => Stage::Filter(0b0110),
+                // ten slots per round of twenty: Tail three times (limits 2, 4 and a random one: the smallest views
+                // make the most multi-diff bursts), Skip twice, Head, Filter twice, Sort twice
+                let slot = (i / 2) % 10;
+                let lim = rng.range(1, 7);
+                let st = match slot {
+                    0 => Stage::Lim { kind: Kind::Tail, pk: PK::Static, n: 2, queue: false },
+                    5 => Stage::Lim { kind: Kind::Tail, pk: PK::Static, n: 4, queue: false },
+                    7 => Stage::Lim { kind: Kind::Tail, pk: PK::Static, n: lim, queue: false },
+                    1 | 6 => Stage::Lim { kind: Kind::Skip, pk: PK::DynInit, n: lim, queue: true },
+                    2 => Stage::Lim { kind: Kind::Head, pk: PK::Static, n: lim, queue: false },
+                    3 | 8 => Stage::Filter(0b0110),
                     _ => Stage::SortByKey,
                 };
                 (vec![st], (i / 20) % 2 == 1)
@@ -154,9 +159,38 @@ pub fn run_marathons(p: &Params, prop: &'static str) -> Outcome {
                     .collect();
                 (chain, rng.chance(1, 2))
             };
-            let h = gen_adp_history(&mut rng, chain, batched, &g);
+            let mut h = gen_adp_history(&mut rng, chain, batched, &g);
+            if long && (i / 2) % 10 < 2 || long && (i / 2) % 10 == 5 {
+                // a regular workload instead of a random one (a timeline: one bulk append, then a sliding window of
+                // push_back / pop_front for tens of thousands of rounds): the adapter's buffers never see anything
+                // but the same two or three burst shapes, however long it lives
+                use crate::engine_adp::AOp;
+                use crate::vops::VOp;
+                let mut ops = vec![AOp::Src(VOp::Append(vec![1, 2, 3])), AOp::Poll(0)];
+                let rounds = rng.range(36_000, 50_000);
+                for r in 0..rounds {
+                    ops.push(AOp::Src(VOp::PushBack((r % 13) as u32)));
+                    if !h.eager && rng.chance(2, 3) {
+                        ops.push(AOp::Poll(0));
+                    }
+                    ops.push(AOp::Src(VOp::PopFront));
+                    if !h.eager && rng.chance(1, 3) {
+                        ops.push(AOp::Poll(0));
+                    }
+                }
+                h.ops = ops;
+                out.ev.count("marathon_regular_sliding_window_workloads");
+            }
             out.ev.add("marathon_operations", h.ops.len() as u64);
-            judge_adp(prop, &h, &p.known, case, out, &|f: &AFacts| f.diffs_in >= 1000);
+            let shown = h.show()[0].clone();
+            if let Some(f) = judge_adp(prop, &h, &p.known, case, out, &|f: &AFacts| f.diffs_in >= 1000) {
+                if std::env::var("MARATHON_DEBUG").is_ok() {
+                    eprintln!("marathon {i}: {shown}: ops {} diffs_in {} diffs_out {} resets_in {}", h.ops.len(), f.diffs_in, f.diffs_out, f.resets_in);
+                }
+                if long {
+                    out.ev.add("marathon_long_single_adapter_diffs_out", f.diffs_out);
+                }
+            }
         }
     })
 }
